@@ -180,5 +180,18 @@ func checkDefs() map[string]CheckDef {
 		BoundsText: "asset lists of length 0..3 (4 thorough) over 3 (4) ledgers given as (backend, ledger) pairs, repetitions in any order, optionally a non-multi-ledger asset; every subset of registered ledgers and of failing ledgers; methods Register, Progress, Withdraw, Fund (with every egoistic index 0..3 or none); all completion orders",
 		Outside:    []string{"preemptions inside a stub call (P>0)", "more than 4 ledgers", "funder timeouts"},
 	})
+	add(CheckDef{
+		ID: "C18",
+		Obligations: []Obligation{
+			{Pkg: "internal/verifh/c18", Harness: "VerifC18Sequential", Sched: true, Quick: map[string]int{"P": 0, "h": 4}, Thor: map[string]int{"h": 5}, TV: 30},
+			{Pkg: "internal/verifh/c18", Harness: "VerifC18Concurrent", Sched: true, Quick: map[string]int{"P": 0, "T": 2, "k": 2, "race": 1}, Thor: map[string]int{"T": 3, "k": 2}, TV: 30},
+		},
+		Assumptions: append(append([]string{}, commonAssumptions...),
+			"predicates are harness closures whose verdict on each envelope is a symbolic boolean; consumers are recording stubs with OnClose support (poly-go Closer)",
+			"reference model: DESIGN.md Appendix A.6; a consumer that was closed but whose asynchronous removal may still be pending may or may not receive an envelope put in that window (both allowed); each envelope is put at most once per program; duplicate subscriptions (a documented panic) are not drawn",
+			"concurrency: the engine's cooperative scheduler explores every order of the operations and of the relay's own goroutines at blocking points (preemption bound 0); in addition every explored execution is checked for data races with a vector-clock happens-before detector (goroutine creation, sync.Mutex/RWMutex, channels, WaitGroup, Once, atomics, timers); a race is reported as a violation and confirmed natively by `go test -race`"),
+		BoundsText: "one relay, 2 consumers, 2 cache predicates, 3 envelopes, all predicate verdicts symbolic (12 booleans); sequential: all histories of h operations (h=4 quick, 5 thorough) over {put, subscribe, cache, release-cache, close-consumer} with quiescence after each; concurrent: T=2 goroutines (3 thorough) with k=2 operations each, all operation-level interleavings, deliveries compared with the reference at quiescence, happens-before race detection on every execution",
+		Outside:    []string{"wire.Receiver's buffering", "preemption inside an operation beyond what the race detector reports (P>0)", "more than 3 goroutines"},
+	})
 	return defs
 }
